@@ -160,8 +160,8 @@ void h_struct_to_table(void) {
     }
     __CPROVER_assert(g_tputs[k] == n, "C04: nothing but the pairs of struct k is put into table k");
   }
-  if (rec && g_depth == 3) REACH("struct/to-table returns a chain of three tables");
-  if (!rec && g_depth == 3) REACH("struct/to-table returns one table for a struct with prototypes");
+  if (rec && g_depth == LIB_DEPTH) REACH("struct/to-table returns a chain of tables of the maximal depth");
+  if (!rec && g_depth == LIB_DEPTH) REACH("struct/to-table returns one table for a struct with prototypes");
 }
 /* ---- (struct/proto-flatten st): ONE new struct without prototype, created with room for the sum of the lengths along the
  * chain; the pairs are put nearest struct first WITHOUT replacing (the nearest definition of a key wins) */
@@ -179,5 +179,5 @@ void h_struct_flatten(void) {
   }
   __CPROVER_assert(g_argc == 1 && g_begins == 1 && g_ends == 1 && (int64_t)g_begin_count == total && g_puts == n, "C04: struct/proto-flatten (arity 1) builds one struct with room for all pairs of the chain and puts nothing else");
   __CPROVER_assert(g_proto_at_end == (const JanetKV *)L_NULL && IS_REF(r, JANET_STRUCT, g_acc->kv), "C04: the flattened struct has no prototype and is returned");
-  if (g_depth == 3 && n == 6) REACH("struct/proto-flatten returns for a chain of three full structs");
+  if (g_depth == LIB_DEPTH && n == LIB_DEPTH * LIB_CAP) REACH("struct/proto-flatten returns for a chain of full structs of the maximal depth");
 }
